@@ -5,7 +5,7 @@ cd /repo || exit 2
 git diff --quiet || { echo "/repo not clean"; exit 2; }
 git apply "$P" || { echo "patch does not apply"; exit 2; }
 cd /verif
-for c in C01 C02 C05 C06 C07 C08 C10 C11 C13 C14 C15 C16 C20; do
+for c in $(python3 -c "import json;print(\" \".join(c[\"property_id\"] for c in json.load(open(\"/verif/MANIFEST.json\"))[\"checks\"]))"); do
   out=$(JXLV_EVID=/tmp/jxlv-tryall-evid ./check $c 2>/dev/null)
   if [ $? -ne 0 ]; then echo "== $c fires:"; echo "$out" | grep "rule=" | cut -c1-260; fi
 done
